@@ -16,7 +16,11 @@ COVER = ("multi-step histories on one long-lived module (train / eval / frozen /
          "return_loss_breakdown, return_all_codes, explicit dropout seeds, no_grad / inference_mode / grad-requiring inputs, CPU autocast, gradients left on the parameters by the caller, the caller "
          "writing in place into returned tensors), decode helpers and coarse-prefix decodes inside the histories, a second replica's forward interleaved at calls into process-global random "
          "generators, cosine Jacobians, cross-head independence of the sampling noise, inputs handed over as dense permuted views / strided slices / storage offsets / channels-last, "
-         "modules whose parameters were frozen with requires_grad_(False) (then reloaded / written in place / unfrozen), a k-means exception granted only once. In addition every function the property depends on is fingerprinted, so an edit is noticed - what matters "
+         "modules whose parameters were frozen with requires_grad_(False) (then reloaded / written in place / unfrozen), a k-means exception granted only once, "
+         "process-wide torch settings around calls (deterministic-algorithms mode incl. NaN-filled uninitialised memory, bfloat16 / float64 default dtype), train() / eval() toggled on single "
+         "sub-modules or groups, checkpoints loaded from plain dicts without _metadata and through torch.save of the whole module, sign-symmetric / duplicated / collinear first batches, level counts "
+         "in the hundreds under bfloat16 / float16 / autocast with saturated tokens, calls with codebook_transform_fn, k-means-initialised codebooks outside the EMA in process groups, and an "
+         "inventory of every in-place write through a reshape / view handle. In addition every function the property depends on is fingerprinted, so an edit is noticed - what matters "
          "is whether a concrete failing input is then found")
 for pid in ids:
     p = props[pid]
@@ -40,7 +44,7 @@ Your job: produce ONE small, realistic source change (1-12 changed lines inside 
  - TWO cooperating sites that each look fine alone;
  - a violation that needs a particular MULTI-STEP history or a particular combination of legal options and input values nobody would think of enumerating;
  - an "optimisation" that is wrong only sometimes (numerically: only for particular magnitudes or exact ties; structurally: only for particular shapes such as a batch of one, one code, one head, dim 1; temporally: only on the n-th call);
- - an interaction with a torch feature the checkers did not list (torch.compile is NOT available; think of expanded (stride-0) inputs and outputs that alias the caller's tensor or each other, requires_grad on buffers, forward / state_dict hooks, torch.set_default_dtype, deterministic-algorithms mode, train() / eval() toggled on sub-modules only, modules or codebooks shared between two parents, pickling / torch.save of the whole module, zero-size batches, integer or bool inputs, meta / to_empty construction).
+ - an interaction with a torch feature the checkers did not list (torch.compile is NOT available; think of outputs that alias the caller's tensor, each other or the module's state (the caller then writes into them), codebooks or sub-modules shared between two parents, forward / load_state_dict hooks registered by the caller, load_state_dict(strict=False) with missing or extra keys, state_dict(keep_vars=True), shallow copy.copy, subclasses overriding a helper, modules moved with .double() / .half() after training and back, very long sequences or b = n = 1, heads = codebook_size = 1, inputs that are integer- or bool-typed, nested no_grad inside training, a python-level random.seed / torch.manual_seed called by the library, weight decay or gradient clipping applied by the caller between calls).
 Do not make changes that merely crash; the code should run and silently violate the property. AVOID these already-tried ideas: {' || '.join(tried) if tried else '(none recorded)'}
 
 Deliverables (write them into {wt}/_seeded/ , create the directory):
